@@ -519,6 +519,46 @@ impl<'ast, 's> Visit<'ast> for TryPass<'s> {
     }
 }
 
+// ---------------------------------------------------------------- N18 `mut self`
+
+/// `fn f(mut self, ..) { body }`  ->  `fn f(self, ..) { let mut verif_self = self; body[self := verif_self] }`
+/// (Verus: "mut self" unsupported).  A by-value receiver rebound to a mutable local: same moves, same drops.
+struct MutSelfPass {
+    edits: Vec<Edit>,
+}
+struct SelfIdents {
+    hits: Vec<std::ops::Range<usize>>,
+}
+impl<'ast> Visit<'ast> for SelfIdents {
+    fn visit_ident(&mut self, i: &'ast proc_macro2::Ident) {
+        if i == "self" {
+            self.hits.push(range(i.span()));
+        }
+    }
+}
+impl MutSelfPass {
+    fn handle(&mut self, sig: &syn::Signature, block: &syn::Block) {
+        if let Some(syn::FnArg::Receiver(r)) = sig.inputs.first() {
+            if r.reference.is_none() && r.mutability.is_some() {
+                let m = range(r.mutability.unwrap().span());
+                let s = range(r.self_token.span());
+                self.edits.push(Edit { start: m.start, end: s.start, text: String::new(), rule: "N18" });
+                let b = range(block.brace_token.span.open()).end;
+                self.edits.push(Edit { start: b, end: b, text: "\n        let mut verif_self = self;".into(), rule: "N18" });
+                let mut si = SelfIdents { hits: vec![] };
+                si.visit_block(block);
+                for h in si.hits {
+                    self.edits.push(Edit { start: h.start, end: h.end, text: "verif_self".into(), rule: "N18" });
+                }
+            }
+        }
+    }
+}
+impl<'ast> Visit<'ast> for MutSelfPass {
+    fn visit_item_fn(&mut self, f: &'ast syn::ItemFn) { self.handle(&f.sig, &f.block); }
+    fn visit_impl_item_fn(&mut self, f: &'ast syn::ImplItemFn) { self.handle(&f.sig, &f.block); }
+}
+
 // ---------------------------------------------------------------- N8 format!
 
 struct FormatPass<'s> {
@@ -720,6 +760,16 @@ pub fn normalize(
         p.visit_file(&f);
         bump(fired, "N13", p.edits.len());
         text = apply_edits_all(&text, p.edits);
+    }
+    // N18
+    if !skip("N18") {
+        let f = parse(&text, "N13")?;
+        let mut p = MutSelfPass { edits: vec![] };
+        p.visit_file(&f);
+        if !p.edits.is_empty() {
+            bump(fired, "N18", 1);
+            text = apply_edits_all(&text, p.edits);
+        }
     }
     // N15
     if spec.desugar_try {
